@@ -98,7 +98,7 @@ end Gsu.SchemaAlg
 namespace Gsu.SchemaAlg
 
 theorem alterDrop_corr {db : Db} {name : String} {cols : List String} {idxs : List (List String)} {db' : Db}
-    (w : LWF db) (h : alterDrop db name cols idxs = some db') :
+    (h : alterDrop db name cols idxs = some db') :
     ∃ ts E, getT db name = some ts ∧ DropCorr db db' name idxs E ∧ names db' = names db := by
   have hv := alterDrop_valid h
   obtain ⟨ts, ts1, hts, h1, hdb'⟩ := alterDrop_inv h
@@ -177,7 +177,7 @@ theorem alterDrop_corr {db : Db} {name : String} {cols : List String} {idxs : Li
 theorem alterDrop_lwf {db : Db} {name : String} {cols : List String} {idxs : List (List String)} {db' : Db}
     (w : LWF db) (h : alterDrop db name cols idxs = some db') : LWF db' := by
   have hv := alterDrop_valid h
-  obtain ⟨ts, E, hts, c, hnames⟩ := alterDrop_corr w h
+  obtain ⟨ts, E, hts, c, hnames⟩ := alterDrop_corr h
   refine ⟨hv, ?_, ?_, linv_of_dropCorr w hts c⟩
   · unfold NamesNodup; rw [hnames]; exact w.names
   · intro n j ix hl hfk
@@ -185,5 +185,12 @@ theorem alterDrop_lwf {db : Db} {name : String} {cols : List String} {idxs : Lis
     obtain ⟨e1, e2, _⟩ := sk_fk hsk
     rw [← e2]
     exact w.fkc n p0 ix0 hl0 (by rw [e1]; exact hfk)
+
+/-- the step function keeps `WF2` when every accepted result has `LWF` -/
+theorem keep_wf2 {db : Db} {r : Option Db} (h : WF2 db)
+    (hr : ∀ db', r = some db' → LWF db') : WF2 (keep db r) := by
+  cases r with
+  | none => exact h
+  | some db' => exact wf2_of_lwf (hr db' rfl)
 
 end Gsu.SchemaAlg
